@@ -61,12 +61,12 @@ Proof. exact ends_with_ok. Qed.
 Print Assumptions C15_refines_reference_ends_with.
 
 (* hashing is a function of the text alone: equal texts hash equally, and the string hash is the view hash *)
-Theorem C15_refines_reference_hash : forall m v, valid_view m v ->
-  okR (hash_view m v) (fun r => r = hash_ref (vtext m v) 0) (within v).
+Theorem C15_refines_reference_hash : forall m ct v, valid_view m v ->
+  okR (hash_view m ct v) (fun r => r = hash_ref ct (vtext m v) 0) (within v).
 Proof. exact hash_view_ok. Qed.
 Print Assumptions C15_refines_reference_hash.
-Theorem C15_refines_reference_hash_str : forall s a, str_ok (smem s) a ->
-  okM (hash_str a) s (fun h s' => h = hash_ref (txt (smem s) a) 0 /\
+Theorem C15_refines_reference_hash_str : forall ct s a, str_ok (smem s) a ->
+  okM (hash_str ct a) s (fun h s' => h = hash_ref ct (txt (smem s) a) 0 /\
      exists rl, Forall (within (str_view a)) rl /\ s' = st_reads s rl).
 Proof. exact hash_str_ok. Qed.
 Print Assumptions C15_refines_reference_hash_str.
@@ -141,17 +141,17 @@ Proof. exact append_char_ok. Qed.
 Print Assumptions C15_refines_reference_append_char_push_back.
 
 (* ---- compare / == : length first, then the first differing char (signed comparison), as the source defines it *)
-Theorem C15_refines_reference_compare : forall s a b, str_ok (smem s) a -> str_ok (smem s) b ->
-  okM (s_compare a b) s (fun z s' => z = cmp_ref (txt (smem s) a) (txt (smem s) b) /\
+Theorem C15_refines_reference_compare : forall ct s a b, str_ok (smem s) a -> str_ok (smem s) b ->
+  okM (s_compare ct a b) s (fun z s' => z = cmp_ref ct (txt (smem s) a) (txt (smem s) b) /\
      exists rl, Forall (either (str_view a) (str_view b)) rl /\ s' = st_reads s rl).
 Proof. exact s_compare_ok. Qed.
 Print Assumptions C15_refines_reference_compare.
-Theorem C15_refines_reference_compare_cstr : forall s a b o n, str_ok (smem s) a -> cstr_at (smem s) b o n ->
-  okM (s_compare_cstr a (P b o)) s (fun z s' => z = cmp_ref (txt (smem s) a) (vtext (smem s) (V b o n)) /\
+Theorem C15_refines_reference_compare_cstr : forall ct s a b o n, str_ok (smem s) a -> cstr_at (smem s) b o n ->
+  okM (s_compare_cstr ct a (P b o)) s (fun z s' => z = cmp_ref ct (txt (smem s) a) (vtext (smem s) (V b o n)) /\
      exists rl, Forall (either (str_view a) (V b o (n + 1))) rl /\ s' = st_reads s rl).
 Proof. exact s_compare_cstr_ok. Qed.
 Print Assumptions C15_refines_reference_compare_cstr.
-Theorem C15_refines_reference_compare_zero_iff_equal : forall a b, cmp_ref a b = 0%Z <-> a = b.
+Theorem C15_refines_reference_compare_zero_iff_equal : forall ct a b, cmp_ref ct a b = 0%Z <-> a = b.
 Proof. exact cmp_ref_zero. Qed.
 Print Assumptions C15_refines_reference_compare_zero_iff_equal.
 Theorem C15_refines_reference_string_starts_ends_with : forall s a v, str_ok (smem s) a -> valid_view (smem s) v ->
@@ -176,7 +176,7 @@ Print Assumptions C15_terminator.
    whose lines all end in Ok, every live string owns no buffer and has length 0 (default-constructed / detached:
    data() == nullptr by design), or owns a buffer of exactly len+1 bytes whose last byte is 0; and no two live
    strings share a buffer *)
-Theorem C15_terminator_every_script : forall (ops : list op) (w : world), run_ops world0 ops = Some w ->
+Theorem C15_terminator_every_script : forall (ct : cty) (ops : list op) (w : world), run_ops (world0 ct) ops = Some w ->
   (forall k x, get_str w k = Some x ->
      match sbuf x with
      | None => slen x = 0
@@ -199,6 +199,22 @@ Theorem C15_reads_in_bounds_ctor_view : forall s v, fresh s -> valid_view (smem 
     exists rl, sreads s' = sreads s ++ rl /\ Forall (within v) rl.
 Proof. exact ctor_view_reads. Qed.
 Print Assumptions C15_reads_in_bounds_ctor_view.
+
+(* the compare used for Char = char under its own name (the one the translator tie TIE_str speaks about) is the
+   char instance of the width-generic compare *)
+Theorem C15_compare_char_instance : forall m a bp n, compare_len_g m char_t a bp n = compare_len m a bp n.
+Proof. exact compare_len_g_char. Qed.
+Print Assumptions C15_compare_char_instance.
+
+(* read ranges are in ELEMENTS; in bytes (element index x sizeof(Char), any character width cw ct) a range within a
+   view lies inside the view's bytes and inside the buffer's bytes *)
+Theorem C15_reads_in_bounds_bytes : forall (ct : cty) (m : mem) b off len r,
+  valid_view m (V b off len) -> within (V b off len) r ->
+  exists l, mem_get m (rb r) = Some l /\
+            cw ct * off <= cw ct * ro r /\ cw ct * ro r + cw ct * rn r <= cw ct * (off + len) /\
+            cw ct * (off + len) <= cw ct * N.of_nat (length l).
+Proof. exact reads_in_bounds_bytes. Qed.
+Print Assumptions C15_reads_in_bounds_bytes.
 
 (* ===== C15_to_number ===== *)
 Theorem C15_to_number : forall (m : mem) (t : ity) (v : view), valid_view m v ->
@@ -241,7 +257,16 @@ Proof.
 Qed.
 
 Example C15_ex_script :   (* a script with aliasing runs to Ok, so the invariant above applies to its final world *)
-  exists w, run_ops world0 [OBuf [97; 0; 98]; OSPtrLen 0 0 3; OSAppV 0 (EStr 0); OSResize 0 2 205; OSPlusC 0 0; OSSwap 0 1;
+  exists w, run_ops (world0 char_t) [OBuf [97; 0; 98]; OSPtrLen 0 0 3; OSAppV 0 (EStr 0); OSResize 0 2 205; OSPlusC 0 0; OSSwap 0 1;
                             OSAssign 1 1; OSDetach 0] = Some w /\
             map (fun o => match o with Some x => Some (slen x) | None => None end) (wstrs w) = [Some 0; Some 2].
 Proof. eexists. split; vm_compute; reflexivity. Qed.
+
+Example C15_ex_wide :   (* char16_t: two views that agree in their first element (and in every low byte) but differ in the
+                           second element are unequal; char16_t compares unsigned, wchar_t signed *)
+  fst (view_eq [(1%nat, [97; 98; 97; 354])] (V 1 0 2) (V 1 2 2)) = Ok false /\
+  fst (starts_with [(1%nat, [97; 98; 97; 354])] (V 1 0 2) (V 1 2 1)) = Ok true /\
+  cmp_ref char16_t [65535] [1] = 1%Z /\ cmp_ref wchar_t [4294967295] [1] = (-1)%Z /\ cmp_ref char_t [255] [1] = (-1)%Z /\
+  (exists w, run_ops (world0 char32_t) [OBuf [97; 65633]; OSPtrLen 0 0 2; OSAppC 0 0; OSHash 0] = Some w /\
+             map (fun o => match o with Some x => Some (slen x) | None => None end) (wstrs w) = [Some 3]).
+Proof. repeat split; try (vm_compute; reflexivity). eexists. split; vm_compute; reflexivity. Qed.
